@@ -696,7 +696,17 @@ func (fr *frame) mapFind(m *Map, key Value) int {
 	return -1
 }
 
+// concurrentIteration: another goroutine is in the middle of a range loop over m
+func (fr *frame) concurrentIteration(m *Map) {
+	for _, it := range m.iters {
+		if it.live() && it.g != nil && fr.g != nil && it.g != fr.g && it.i > 0 {
+			fr.w.fatal(fr, "fatal error: concurrent map iteration and map write")
+		}
+	}
+}
+
 func (fr *frame) mapUpdate(m *Map, key, val Value) {
+	fr.concurrentIteration(m)
 	i := fr.mapFind(m, key)
 	if i >= 0 {
 		m.Vals[i] = copyVal(val)
@@ -711,6 +721,7 @@ func (fr *frame) mapUpdate(m *Map, key, val Value) {
 }
 
 func (fr *frame) mapDelete(m *Map, key Value) {
+	fr.concurrentIteration(m)
 	i := fr.mapFind(m, key)
 	if i < 0 {
 		return
@@ -774,9 +785,24 @@ type mapIter struct {
 	keys  []Value
 	order []int
 	i     int
+	g     *G     // the goroutine iterating
+	owner *frame // the function whose range loop this is
+	done  bool
 }
 
+// live: the range loop this iterator belongs to may still be running
+func (it *mapIter) live() bool { return !it.done && it.owner != nil && !it.owner.returned }
+
 func (it *mapIter) next(fr *frame) Tuple {
+	// every step of a map iteration is a point where another goroutine may run (with
+	// delay_preempt): the Go runtime detects a write that lands in between as a fatal
+	// "concurrent map iteration and map write"; so does mapUpdate/mapDelete below
+	if it.m != nil && fr.g != nil && it.i > 0 && it.i < len(it.order) {
+		fr.w.sched.pointAny(fr.g)
+	}
+	if it.i >= len(it.order) {
+		it.done = true
+	}
 	for it.i < len(it.order) {
 		k := it.keys[it.order[it.i]]
 		it.i++
@@ -831,10 +857,18 @@ func sameValue(a, b Value) bool {
 func (fr *frame) rangeIter(x Value, t types.Type) iter {
 	switch x := x.(type) {
 	case *Map:
-		it := &mapIter{m: x}
+		it := &mapIter{m: x, g: fr.g, owner: fr}
 		if x == nil {
 			return it
 		}
+		// forget dead iterators, remember this one
+		live := x.iters[:0]
+		for _, o := range x.iters {
+			if o.live() {
+				live = append(live, o)
+			}
+		}
+		x.iters = append(live, it)
 		it.keys = append([]Value{}, x.Keys...)
 		n := len(it.keys)
 		it.order = make([]int, n)
